@@ -4,12 +4,15 @@ import BoltonsVerif.C04.Closed
 import BoltonsVerif.C04.View
 import BoltonsVerif.C04.Names
 import BoltonsVerif.C04.Win
+import BoltonsVerif.C04.Sym
 import BoltonsVerif.Generated.C04_Consts
 /-
 C04 line protocol.  Two kinds of line:
 
   A <umask> <dest> <part> <events...>      acceptance of an OBSERVED trace
-      dest    `-` or `<mode>:<size>`  (old content = <size> bytes of value 7)
+      dest    `-` or `<mode>:<size>`  (old content = <size> bytes of value 7);
+              `L<mode>:<size>`: the destination path is a symbolic link to such a file, `L-`: a link to nothing
+              (the trace is then executed on the link-aware file system `C04.SFS`, the outputs are those of `SFS.abs`)
       part    0/1: a stale part file exists at the start
       events  n | o<excl><samedir>:<mode> | c<mode> | w<size> | f | s | x | xf | R | L | U | T | W<size> | D | ?
               (one token per recorded call; a write writes <size> bytes of value 1)
@@ -125,11 +128,23 @@ def prefixStates (fs : FS) : List Ev → List FS
     | .ok fs' => fs :: prefixStates fs' t
     | .error _ => [fs]
 
-def accept (umask : Nat) (dest : Option Inode) (part : Bool) (evs : List Ev) (withProc : Bool) : String :=
-  let fs0 := mkFS dest part umask
+/-- the link-aware start state: the destination's entry is a link to the third name, which holds the old file (or nothing) -/
+def mkSFS (dest : Option Inode) (part : Bool) (umask : Nat) : SFS :=
+  match dest, part with
+  | none, false => ⟨[], ⟨some .link, none, none⟩, [], none, umask⟩
+  | some d, false => ⟨[d], ⟨some .link, none, some 0⟩, [], none, umask⟩
+  | none, true => ⟨[stale], ⟨some .link, some 0, none⟩, [], none, umask⟩
+  | some d, true => ⟨[d, stale], ⟨some .link, some 1, some 0⟩, [], none, umask⟩
+
+def sprefixStates (s : SFS) : List Ev → List SFS
+  | [] => [s]
+  | e :: t => match s.step e with
+    | .ok s' => s :: sprefixStates s' t
+    | .error _ => [s]
+
+def acceptStates (fs0 : FS) (sts : List FS) (evs : List Ev) (withProc : Bool) : String :=
   let old := fs0.readDest
   let new := allData evs
-  let sts := prefixStates fs0 evs
   let feasible := sts.length = evs.length + 1
   let proc := if withProc then String.ofList (sts.map fun fs => classify old new fs.destAfterProcCrash) else "-"
   let okLetters : List Char := [classify old new old, 'n', 'b']
@@ -149,11 +164,20 @@ def accept (umask : Nat) (dest : Option Inode) (part : Bool) (evs : List Ev) (wi
     | some i => if (final.inodes[i]?).map Inode.cache = (fs0.inodes[i]?).map Inode.cache then "o" else "X"
   s!"safe={if SafeTrace evs then 1 else 0} exec={if feasible then "ok" else s!"fail@{sts.length - 1}"} proc={proc} power={power} final={classify old new final.readDest} part={if final.dir.part.isSome then 1 else 0} dirs={dirs} held={held}"
 
+def accept (umask : Nat) (dest : Option Inode) (part : Bool) (evs : List Ev) (withProc : Bool) : String :=
+  let fs0 := mkFS dest part umask
+  acceptStates fs0 (prefixStates fs0 evs) evs withProc
+
+def acceptSym (umask : Nat) (dest : Option Inode) (part : Bool) (evs : List Ev) (withProc : Bool) : String :=
+  let s0 := mkSFS dest part umask
+  acceptStates s0.abs ((sprefixStates s0 evs).map SFS.abs) evs withProc
+
 def handle (line : String) : String :=
   match words line with
   | "A" :: umask :: dest :: part :: evs =>
-    match umask.toNat?, parseDest? dest, part.toList.map bit?, allOpt (evs.map parseEv?) with
-    | some umask, some dest, [some part], some evs => accept umask dest part evs true
+    let sym := dest.front == 'L'
+    match umask.toNat?, parseDest? (if sym then (dest.drop 1).toString else dest), part.toList.map bit?, allOpt (evs.map parseEv?) with
+    | some umask, some dest, [some part], some evs => if sym then acceptSym umask dest part evs true else accept umask dest part evs true
     | _, _, _, _ => "bad-op"
   | "S" :: umask :: dest :: part :: evs =>
     match umask.toNat?, parseDest? dest, part.toList.map bit?, allOpt (evs.map parseEv?) with
